@@ -26,6 +26,10 @@ type Part struct {
 type Lit struct {
 	Form  string `json:"form"` // plain | raw | interp | rawinterp
 	Parts []Part `json:"parts"`
+	// Pat (plain / raw without holes and without a line break): the literal is also written as the pattern
+	// of a string match that is applied to the literal's own value; what is printed is the matched value,
+	// or a marker when the pattern does not match the text it is spelled like
+	Pat bool `json:"pat,omitempty"`
 }
 
 // Case is a batch of literals printed by one program.
@@ -133,13 +137,23 @@ func (l Lit) src() string {
 
 func program(lits []Lit) string {
 	var sb strings.Builder
-	sb.WriteString("package main\n\nimport frt\n\ntype HRec = {HA: int; HB: string}\n\ntype HUni =\n  | HI of int\n  | HN\n\nlet main () =\n")
+	sb.WriteString("package main\n\nimport frt\n\ntype HRec = {HA: int; HB: string}\n\ntype HUni =\n  | HI of int\n  | HN\n\n")
+	for i, l := range lits {
+		if l.Pat {
+			fmt.Fprintf(&sb, "let pat%d (s:string) =\n  match s with\n  | %s -> s\n  | _ -> \"<<the pattern does not match its own text>>\"\n\n", i, l.src())
+		}
+	}
+	sb.WriteString("let main () =\n")
 	for _, h := range holeVars {
 		fmt.Fprintf(&sb, "  let %s = %s\n", h.name, h.def)
 	}
 	// every variable is used at least once
 	sb.WriteString("  frt.Printf1 \"%v\\n\" (hi, hneg)\n  frt.Printf1 \"%v\\n\" (hs, he)\n  frt.Printf1 \"%v\\n\" (hb, ht)\n  frt.Printf1 \"%v\\n\" (hl, hls)\n  frt.Printf1 \"%v\\n\" (hr, hu)\n  frt.Printf1 \"%v\\n\" hn\n  frt.Println \"BEGIN\"\n")
-	for _, l := range lits {
+	for i, l := range lits {
+		if l.Pat {
+			fmt.Fprintf(&sb, "  frt.Printf1 \"%%q\\n\" (pat%d %s)\n", i, l.src())
+			continue
+		}
 		fmt.Fprintf(&sb, "  frt.Printf1 \"%%q\\n\" %s\n", l.src())
 	}
 	sb.WriteString("  frt.Println \"END\"\n")
@@ -179,6 +193,9 @@ func run(e *vt.Env, fc string, lits []Lit) (lines []string, failure string, err 
 }
 
 func describe(l Lit) string {
+	if l.Pat {
+		return fmt.Sprintf("form %s used as a match pattern and applied to its own value, source %s, intended value %q", l.Form, l.src(), l.meaning())
+	}
 	return fmt.Sprintf("form %s, source %s, intended value %q", l.Form, l.src(), l.meaning())
 }
 
@@ -290,6 +307,9 @@ func TestSingleCharacters(t *testing.T) {
 			for _, tx := range texts {
 				if denotable(f, tx) {
 					all = append(all, Lit{Form: f, Parts: []Part{{Text: tx}}})
+					if (f == "plain" || f == "raw") && !strings.Contains(tx, "\n") {
+						all = append(all, Lit{Form: f, Parts: []Part{{Text: tx}}, Pat: true})
+					}
 				}
 			}
 			// next to a hole
@@ -313,7 +333,7 @@ func TestSingleCharacters(t *testing.T) {
 			failOne(t, e, batch)
 		}
 		for _, l := range batch {
-			e.Record("TestSingleCharacters", vt.Hash(l.Form, l.src()), special(l.meaning()), []string{"form:" + l.Form}, func() any {
+			e.Record("TestSingleCharacters", vt.Hash(l.Form, l.src(), fmt.Sprint(l.Pat)), special(l.meaning()), []string{"form:" + l.Form}, func() any {
 				return map[string]any{"form": l.Form, "source": l.src(), "value": l.meaning()}
 			})
 		}
@@ -380,11 +400,17 @@ func TestRandomLiterals(t *testing.T) {
 			if len(l.Parts) == 0 {
 				l.Parts = []Part{{Text: ""}}
 			}
+			if (f == "plain" || f == "raw") && !strings.Contains(l.meaning(), "\n") && len(l.meaning()) < 300 && rapid.IntRange(0, 2).Draw(rt, "asPattern") == 0 {
+				l.Pat = true
+			}
 			lits = append(lits, l)
 		}
 		c := Case{Lits: lits}
 		for _, l := range lits {
 			labels := []string{"form:" + l.Form}
+			if l.Pat {
+				labels = append(labels, "used as a match pattern")
+			}
 			holes := 0
 			for _, p := range l.Parts {
 				if p.Hole != "" {
